@@ -17,6 +17,25 @@ from fns import G, frs, np_epoch_ns, unfr
 NS = 10 ** 9
 
 
+def range_nan_case(case):
+    """Known deviation class of the real code (AttenuatedProofs.atten_refuted_range_nan):
+    check_type='range', test_period given, and some present point whose trailing window
+    (t - P, t] contains a missing value.  There Rolling.apply(np.ptp, raw=True) yields NaN (UNKNOWN)
+    although the window holds observed values.  Exactly the negation of the refinement's
+    `range_clean` hypothesis (for a non-empty series in rolling mode)."""
+    tp = None if case["tp"] == "absent" else case["tp"]
+    xs, ts = case["xs"], case["ts"]
+    if case["check"] != "range" or not tp or len(xs) != len(ts):
+        return False
+    for i, x in enumerate(xs):
+        if x is None:
+            continue
+        for j, y in enumerate(xs):
+            if y is None and ts[i] - tp < ts[j] <= ts[i]:
+                return True
+    return False
+
+
 class Attenuated(Adapter):
     name = "attenuated_signal_test"
     imports = ["Base", "Attenuated"]
@@ -49,13 +68,17 @@ class Attenuated(Adapter):
         return self.model(case).replace("atten_model", "atten_spec", 1)
 
     def in_domain(self, case):
-        # increasing axis of the right length, non-negative period / min_obs / min_period
+        # increasing axis of the right length, non-negative period / min_obs / min_period, and not the
+        # known deviation class (range_clean hypothesis of atten_refines)
         ts = case["ts"]
         tp = None if case["tp"] == "absent" else case["tp"]
         return (all(a < b for a, b in zip(ts, ts[1:])) and len(ts) == len(case["xs"])
                 and (tp is None or tp >= 0)
                 and (case["min_obs"] is None or case["min_obs"] >= 0)
-                and (case["min_period"] is None or case["min_period"] >= 0))
+                and (case["min_period"] is None or case["min_period"] >= 0)
+                and not range_nan_case(case))
+
+    range_nan_case = staticmethod(range_nan_case)
 
 
 # ------------------------------------------------------------------ exact spreads (threshold choice only)
@@ -189,8 +212,8 @@ def gen_atten(tier, rng):
             ts = list(range(len(xs)))
             cases.append(mk(xs, ts, bad, F(1), F(2), None, None, None))
             cases.append(mk(xs, ts, bad, F(1), F(2), 2, 1, None))
-    # rejected parameters in rolling mode: negative min_obs / min_period, sub-second sampling is not
-    # expressible with whole-second times; empty input with range and no test_period raises
+    # rejected parameters in rolling mode: negative min_obs / min_period (sub-second sampling is not
+    # expressible with whole-second times); empty input is returned as is whatever the parameters
     for check in ("std", "range"):
         cases.append(mk([F(1), F(3)], [0, 1], check, F(1), F(2), 2, -1, None))
         cases.append(mk([F(1), F(3)], [0, 1], check, F(1), F(2), 2, None, -3))
@@ -199,6 +222,12 @@ def gen_atten(tier, rng):
         cases.append(mk([], [], check, F(1), F(2), 3, None, None))
         cases.append(mk([], [], check, F(1), F(2), 3, None, 2))
         cases.append(mk([F(1)], [7], check, F(1), F(2), 3, None, 2))
+        cases.append(mk([], [], check, F(1), F(2), 3, -1, None))
+        cases.append(mk([], [], check, F(1), F(2), 3, None, -2))
+        cases.append(mk([], [], check, F(1), F(2), -3, None, None))
+        cases.append(mk([], [0, 1], check, F(1), F(2), 3, None, None))
+        cases.append(mk([], [2, 1, 5], check, F(1), F(2), 3, None, 1))
+        cases.append(mk([], [0], check, F(1), F(2), None, None, None))
     # outside the property's domain (not increasing / lengths differ): the model still follows the code
     for check in ("std", "range"):
         cases.append(mk([F(1), F(3), F(0)], [0, 2, 1], check, F(1), F(2), 2, None, None))
